@@ -7,6 +7,23 @@ use crate::{
 use bytemuck::Pod;
 use rand_distr::num_traits::Zero;
 
+/// Panics unless `data` holds at least `n * polys` scalars of `scalar_bytes` bytes and is aligned to `align`.
+///
+/// Shared by the `from_data` constructors: the accessors of [`ZnxView`] build slices from the metadata
+/// alone, so a buffer that is too short (or misaligned) must be rejected when the object is created.
+pub(crate) fn assert_from_data_fits(what: &str, data: &[u8], n: usize, polys: Option<usize>, scalar_bytes: usize, align: usize) {
+    let need: Option<usize> = polys.and_then(|x| x.checked_mul(n)).and_then(|x| x.checked_mul(scalar_bytes));
+    assert!(
+        matches!(need, Some(b) if b <= data.len()),
+        "{what}::from_data: buffer of {} bytes too small for the declared shape (n={n})",
+        data.len()
+    );
+    assert!(
+        align == 0 || (data.as_ptr() as usize).is_multiple_of(align),
+        "{what}::from_data: buffer not aligned to {align} bytes"
+    );
+}
+
 /// Metadata trait providing the shape of a polynomial container.
 ///
 /// Every layout type in this crate implements `ZnxInfos` to expose its
